@@ -104,10 +104,14 @@ def ws2dwcvp(y, nodata, p, llas, robust, out, lopt):
                 if mad > 0:
                     u_arr = r_arr / (1.4826 * mad * np.sqrt(1 - gamma.sum() / n))
 
-                    r_weights = (1 - (u_arr / 4.685) ** 2) ** 2
-                    r_weights[(np.abs(u_arr / 4.685) > 1)] = 0
+                    r_new = (1 - (u_arr / 4.685) ** 2) ** 2
+                    r_new[(np.abs(u_arr / 4.685) > 1)] = 0
 
-                    r_weights[r_arr > 0] = 1
+                    r_new[r_arr > 0] = 1
+
+                    # the solver needs at least two weighted cells
+                    if np.sum((w * r_new) > 0) > 1:
+                        r_weights = r_new
 
             robust_weights = w * r_weights
 
@@ -225,10 +229,14 @@ def _ws2dwcvp(y, w, p, llas, robust):
             if mad > 0:
                 u_arr = r_arr / (1.4826 * mad * np.sqrt(1 - gamma.sum() / n))
 
-                r_weights = (1 - (u_arr / 4.685) ** 2) ** 2
-                r_weights[(np.abs(u_arr / 4.685) > 1)] = 0
+                r_new = (1 - (u_arr / 4.685) ** 2) ** 2
+                r_new[(np.abs(u_arr / 4.685) > 1)] = 0
 
-                r_weights[r_arr > 0] = 1
+                r_new[r_arr > 0] = 1
+
+                # the solver needs at least two weighted cells
+                if np.sum((w * r_new) > 0) > 1:
+                    r_weights = r_new
 
         robust_weights = w * r_weights
 
